@@ -1,3 +1,5 @@
+pub mod c06;
+pub mod c07;
 pub mod c14;
 pub mod c15;
 pub mod c18;
